@@ -27,7 +27,7 @@ def collect_hooks(work, hook_files, coverage, rejected, tier):
         EXTRA_HOOK_ROWS.extend(core.read_ndjson(path))
 
 
-def generic_ops(d):
+def generic_ops(d, structural=True):
     """class-independent API calls on a real diagram; every diagram they construct is seen by the hook"""
     out = []
 
@@ -58,6 +58,21 @@ def generic_ops(d):
         attempt(lambda: d.interchange(i + 1, i, left=True))
     attempt(lambda: d.normal_form())
     attempt(lambda: d.foliation().flatten())
+    # structural diagrams of the class on the types of d (nested cups and caps, transposes, block swaps, permutations)
+    cls = type(d)
+    for t in ((d.dom, d.cod) if structural else ()):
+        if len(t) > 3:
+            continue
+        attempt(lambda: cls.cups(t, t.r))
+        attempt(lambda: cls.caps(t, t.l))
+        attempt(lambda: cls.cups(t.l, t))
+        attempt(lambda: cls.swap(t, d.cod))
+        attempt(lambda: cls.swap(d.dom, t) >> cls.swap(t, d.dom))
+        attempt(lambda: cls.permutation(list(range(len(t)))[::-1], t))
+    if structural and len(d.dom) + len(d.cod) <= 4:
+        attempt(lambda: d.transpose())
+        attempt(lambda: d.transpose(left=True))
+        attempt(lambda: d.transpose().transpose(left=True))
     return out
 
 
@@ -71,13 +86,13 @@ def class_legs(work, tier, seed):
     try:
         for cls, descs in classgen.pools(work, tier, seed).items():
             done = 0
-            for desc in descs:
+            for i, desc in enumerate(descs):
                 try:
                     d = classgen.build(desc)
                 except Exception:
                     continue
                 if d is not None:
-                    done += len(generic_ops(d))
+                    done += len(generic_ops(d, structural=(i % 3 == 0)))
             counts[cls] = done
     finally:
         sink.uninstall()
